@@ -28,6 +28,7 @@ ObsInit == [types |-> <<>>,        \* layer types bottom -> top
             ready |-> EmptyMap,    \* <<f, i>> -> time at which tap i's submit returned that future to the layer above
             lacq |-> EmptyMap,     \* thr -> taps live AND handed over at an earlier instant than its pending cancel()
             rstop |-> {},          \* <<f, i>>: some cancel() call on the future of retry layer i has returned
+            sync |-> FALSE,        \* synchronous base: callables run inside submit(), under the locks of the layers above
             cfalse_run |-> {},     \* futures whose cancel() returned False because the callable was running
             down |-> FALSE]
 
@@ -35,6 +36,7 @@ IsRetryTap(st, i) == i >= 1 /\ i <= Len(st.types) /\ st.types[i] = "retry"
 
 ObsNext(st, e) ==
   CASE e.ev = "Layer" -> [st EXCEPT !.types = Append(@, e.s)]
+    [] e.ev = "Base" -> [st EXCEPT !.sync = (e.s = "sync")]
     [] e.ev = "Invoke" -> [st EXCEPT !.running = @ \cup {e.f}]
     [] e.ev = "InvokeEnd" -> [st EXCEPT !.running = @ \ {e.f}]
     [] e.ev = "DelegateSubmit" /\ TapIdx(e.s) > 0 ->
@@ -79,8 +81,10 @@ Clauses(st, e) ==
             \A i \in st.lac[e.thr] : <<e.f, i>> \in st.arrived \/ <<e.f, i>> \in st.finished>>,
      <<"C06_ForwardedEvenIfRefused",
         \* a cancel() that comes back False was forwarded all the same - unless the callable was running when it was
-        \* issued (then the refusal may come from any layer on the way down)
-        (e.ev = "CancelRet" /\ e.a = 0 /\ Has(st.lacq, e.thr) /\ ~Get(st.crun, e.thr, FALSE) /\ e.f \notin st.running) =>
+        \* issued (then the refusal may come from any layer on the way down).  Not judged over a synchronous base: there a
+        \* worker thread runs the callable - for as long as it takes - while holding library locks, so another layer's
+        \* hand-over can still be blocked at a later instant
+        (e.ev = "CancelRet" /\ e.a = 0 /\ ~st.sync /\ Has(st.lacq, e.thr) /\ ~Get(st.crun, e.thr, FALSE) /\ e.f \notin st.running) =>
             \A i \in st.lacq[e.thr] : <<e.f, i>> \in st.arrived \/ <<e.f, i>> \in st.finished
                                      \/ <<e.f, i>> \notin st.live>>,
      <<"C02_CancelNeverRaises",
